@@ -10,6 +10,12 @@ fn main() {
         println!("{}", serde_json::to_string(&w).unwrap());
         return;
     }
+    if args.len() >= 4 && args[1] == "DEEPDOM" {
+        // probe (run in a subprocess by C09): a chain `depth` deep through one operation
+        let depth: usize = args[2].parse().unwrap();
+        println!("{}", vh::deepdom::probe(depth, &args[3]));
+        return;
+    }
     match evidence::parse_args() {
         Cmd::Check(prop, tier) => check(&prop, tier),
         Cmd::Replay(prop, file) => replay(&prop, &file),
@@ -150,6 +156,21 @@ fn check_dom(prop: &str, tier: Tier) {
                 "exhaustive": true,
             }),
         );
+    }
+    if prop == "C09" || prop == "C10" {
+        let (problems, n) = vh::deepdom::run_all();
+        println!("{} deep/wide shape probes: {} subprocess runs, {} problems", prop, n, problems.len());
+        for (key, what, case) in problems {
+            // an aborted process is a well-formedness matter (C09), a wrong result an effect matter (C10)
+            let mine = if key.ends_with("wrong-effect") { "C10" } else { "C09" };
+            if mine == prop {
+                run.violation(&key, &what, || case);
+            }
+        }
+        states += n;
+        transitions += n;
+        execs += n;
+        runs.insert("deep_and_wide_shape_probes".into(), json!({"subprocess_runs": n, "sizes": [12, 40, 1000, 100000], "shapes": ["chain", "star"], "operations": vh::deepdom::PROBES}));
     }
     if prop == "C12" {
         let (out, cfgs) = now_part(&run, tier);
@@ -389,6 +410,14 @@ fn replay(prop: &str, file: &std::path::Path) {
             std::process::exit(if fs.is_empty() { 0 } else { 1 });
         }
         "C12" if case.get("tokens").is_some() => simple_replay("C12", vh::c12b::replay(case)),
+        "C09" | "C10" if case.get("deepdom").is_some() => {
+            let size = case["deepdom"]["size"].as_u64().unwrap_or(12) as usize;
+            let what = case["deepdom"]["probe"].as_str().unwrap_or("descendants").to_owned();
+            let r = vh::deepdom::probe(size, &what);
+            println!("observed: {}", r);
+            println!("REPLAY property={} outcome={}", prop, if r == "ok" { "holds" } else { "violation" });
+            std::process::exit(if r == "ok" { 0 } else { 1 });
+        }
         "C01" | "C03" | "C04" if case.get("block").is_some() => simple_replay(prop, vh::scalar::replay(case)),
         "C09" | "C10" | "C11" | "C12" => {
             let ms = vh::domx::replay(case);
